@@ -7,24 +7,34 @@ Decided:
         before event.stream_id is rewritten; every HttpEvent reaches the protocol handler with stream_id rewritten to
         the mapped id (looked up or fresh); every command coming back is yielded exactly once and a ReceiveHttp has its
         event.stream_id translated through their_stream_id[...] first.
-  R05.2 capacity gate of Http2Client: the gate expression equals  open_outbound_streams >= (provisional or remote max)
-        and the resume expression equals  queue non-empty and open_outbound_streams < (provisional or remote max)  on a
-        table of concrete values (the expressions are interpreted, not executed).  The only acceptable measure of "streams open upstream"
-        is hyper-h2's own open_outbound_streams: it drops a stream the moment it is closed by EITHER side.  When an expression reads another
-        attribute of the client (self.streams, the id maps ...) the class is searched for a method that closes a stream locally
-        (h2_conn.reset_stream / end_stream) while nothing on its call chain removes from that attribute; with such a witness the attribute
-        is an independent table variable (sizes 0..4) - phantom entries then either hold queued streams back for ever or overrun the limit -
-        without one the coupling is undecided (exit 2); a gated event is appended to
+        The paths are compared through abstract VALUES, not through the text of the statements: locals, aliases (`received = cmd.event`),
+        the names of the parameters / loop variables and the nesting or polarity of the branches are irrelevant; private helper methods
+        of the class called as `self.<helper>(...)` are inlined (and may then write the maps, provided nothing but the analysed paths
+        calls them); `yield Log(...)`, counters, assertions and annotations are transparent.
+  R05.2 capacity gate of Http2Client: the DECISION to queue a new stream equals  open_outbound_streams >= (provisional or remote max)
+        and the decision to resume equals  queue non-empty and open_outbound_streams < (provisional or remote max)  on a
+        table of concrete values: every path of _handle_event carries the branch conditions it took; each condition is evaluated on
+        every table row by the pure-Python interpreter (pyint) - temporaries are resolved through their single assignment, helper
+        methods such as a `_has_free_stream_slot()` are interpreted, not matched - and every path whose conditions hold on a row has to
+        queue / resume exactly when the row says so.  Conditions that cannot be evaluated on the table (debug switches, properties of the
+        event) are left open: the decision must then not depend on them.  The only acceptable measure of "streams open upstream"
+        is hyper-h2's own open_outbound_streams: it drops a stream the moment it is closed by EITHER side.  When a deciding condition
+        reads another attribute of the client (self.streams, the id maps ...) the class is searched for a method that closes a stream
+        locally (h2_conn.reset_stream / end_stream) while nothing on its call chain removes from that attribute; with such a witness the
+        attribute is an independent table variable (sizes 0..4) - phantom entries then either hold queued streams back for ever or
+        overrun the limit - without one the coupling is undecided (exit 2); a gated event is appended to
         stream_queue[its original stream id] and nothing else happens; resume takes the FIRST queued stream
         (pop(next(iter(queue)))) and replays its events in order, each once; provisional_max_concurrency is only
         cleared (to None) when RemoteSettingsChanged was received.
   R05.3 HttpLayer.event_to_child routing table: ReceiveHttp -> self.streams[command.event.stream_id] with
-        command.event (stream created first iff RequestHeaders), SendHttp -> self.connections[command.connection] with
+        command.event (stream created first iff RequestHeaders; an event for a stream that is gone is dropped - `except KeyError`,
+        `.get()` + None test and `in self.streams` are the same decision), SendHttp -> self.connections[command.connection] with
         command.event, DropStream -> streams.pop(command.stream_id); no other command creates or drops streams;
-        self.streams is written only by make_stream (key == the HttpStream's own id) and the DropStream branch.
+        self.streams is written only by make_stream (key == the HttpStream's own id) and the DropStream branch (or private helpers
+        called from nowhere else).
   R05.4 per-event handlers (handle_h2_event x3, the HTTP/3 event loop, parse_headers x2) build every Receive*/
-        RequestHeaders/ResponseHeaders event with the stream id of the h2/h3 event being handled; every non-error
-        h2 DataReceived path acknowledges exactly that event's flow_controlled_length on that event's stream.
+        RequestHeaders/ResponseHeaders event with the stream id of the h2/h3 event being handled (directly or through a local that
+        holds it); every non-error h2 DataReceived path acknowledges exactly that event's flow_controlled_length on that event's stream.
 NOT decided: hyper-h2 / aioquic demultiplexing, BufferedH2Connection's flow-control buffering under all interleavings.
 """
 
@@ -36,10 +46,18 @@ import itertools
 from ..core import AnalysisError
 from ..core import norm
 from ..model import attr_chain
+from ..model import enclosing_func
 from ..model import eval_order
 from ..model import last_attr
 from ..model import walk_in_order
 from ..paths import C
+from ..paths import class_names
+from ..paths import R
+from ..paths import Spec
+from ..paths import UNKNOWN
+from ..pyint import Interp
+from ..pyint import Raised
+from ..pyint import Rec
 from ..selftest import Mutant
 from ._helpers_A import ASpec
 from ._helpers_A import compare_pair
@@ -55,7 +73,8 @@ from ._helpers_A import show
 PROP = "C05"
 REG = {
     "strength": "partial",
-    "technique": "CFG path enumeration (paired writes, routing table), who-may-write, abstract interpretation of the gate expressions over a value table, dataflow identity of stream ids",
+    "technique": "CFG path enumeration over abstract values with helper inlining (paired writes, routing table), who-may-write along the call graph, "
+    "interpretation (pyint) of the path conditions of the gate over a value table, dataflow identity of stream ids",
     "claim": "Http2Client/Http3Client translate stream ids through a converse pair of maps written only at one place, rewrite every HttpEvent in and "
     "every ReceiveHttp out; the HTTP/2 concurrency gate compares open streams with (provisional or remote) max, queues gated events per stream and "
     "resumes FIFO; HttpLayer routes by stream id / connection; per-event handlers forward the event's own stream id and acknowledge its data.",
@@ -65,6 +84,7 @@ REG = {
 H2 = "mitmproxy/proxy/layers/http/_http2.py"
 H3 = "mitmproxy/proxy/layers/http/_http3.py"
 I = "mitmproxy/proxy/layers/http/__init__.py"
+BASE = "mitmproxy/proxy/layers/http/_base.py"
 MAPS = ("self.our_stream_id", "self.their_stream_id")
 QUEUE = "self.stream_queue"
 OPEN = "self.h2_conn.open_outbound_streams"
@@ -73,137 +93,492 @@ REMOTE = "self.h2_conn.remote_settings.max_concurrent_streams"
 
 
 # ---------------------------------------------------------------------------------------------------
+# shared: a depth-aware, alias-resolving spec
+
+
+def _isinst(expr):
+    """(subject, [class last names]) for isinstance(x, A) / (A, B) / A | B."""
+    if isinstance(expr, ast.Call) and isinstance(expr.func, ast.Name) and expr.func.id == "isinstance" and len(expr.args) == 2 and not expr.keywords:
+        return expr.args[0], class_names(expr.args[1])
+    return None
+
+
+def _is_none(e) -> bool:
+    return isinstance(e, ast.Constant) and e.value is None
+
+
+def _bindings(fn):
+    """name -> list of binding sites of the locals of ``fn`` (value expression for `name = expr`, None for every other kind of binding)."""
+    out: dict[str, list] = {}
+
+    def add(t, v):
+        if isinstance(t, ast.Name):
+            out.setdefault(t.id, []).append(v)
+        elif isinstance(t, (ast.Tuple, ast.List)):
+            for e in t.elts:
+                add(e, None)
+        elif isinstance(t, ast.Starred):
+            add(t.value, None)
+
+    a = fn.args
+    for p in a.posonlyargs + a.args + a.kwonlyargs + ([a.vararg] if a.vararg else []) + ([a.kwarg] if a.kwarg else []):
+        out.setdefault(p.arg, []).append(None)
+    for n in ast.walk(fn):
+        if isinstance(n, ast.Assign):
+            for t in n.targets:
+                add(t, n.value if len(n.targets) == 1 else None)
+        elif isinstance(n, ast.AnnAssign) and n.value is not None:
+            add(n.target, n.value)
+        elif isinstance(n, ast.AugAssign):
+            add(n.target, None)
+        elif isinstance(n, (ast.For, ast.AsyncFor)):
+            add(n.target, None)
+        elif isinstance(n, (ast.With, ast.AsyncWith)):
+            for it in n.items:
+                if it.optional_vars is not None:
+                    add(it.optional_vars, None)
+        elif isinstance(n, ast.NamedExpr):
+            add(n.target, None)
+        elif isinstance(n, ast.ExceptHandler) and n.name:
+            out.setdefault(n.name, []).append(None)
+        elif isinstance(n, (ast.MatchAs, ast.MatchStar)) and n.name:
+            out.setdefault(n.name, []).append(None)
+        elif isinstance(n, (ast.Global, ast.Nonlocal)):
+            for nm in n.names:
+                out.setdefault(nm, []).append(None)
+    return out
+
+
+def _single(fn) -> dict:
+    """Locals of ``fn`` bound exactly once, by a plain `name = expr`: name -> expr (single-assignment temporaries)."""
+    return {k: v[0] for k, v in _bindings(fn).items() if len(v) == 1 and v[0] is not None}
+
+
+def _through(single, e, limit=8):
+    """``e`` with names of single-assignment temporaries replaced by their defining expression (top level only)."""
+    while isinstance(e, ast.Name) and e.id in single and limit:
+        e = single[e.id]
+        limit -= 1
+    return e
+
+
+class DSpec(ASpec):
+    """ASpec for rules that compare VALUES: names are looked up in the frame of the function that contains the expression (so labels and value
+    hooks work inside inlined helpers), attribute chains are canonicalised through aliases (`x = cmd.event` makes `x.stream_id` the chain
+    `cmd.event.stream_id`; a parameter of an inlined helper stands for the argument it was called with), rebinding a name drops its aliases."""
+
+    def __init__(self, **kw):
+        ASpec.__init__(self, **kw)
+        self._fn_depth: dict = {}
+        self.inlined_fns: dict = {}
+        self._encl: dict = {}
+
+    # -- frames
+    def inline(self, call, st, depth):
+        fn = self._resolver(call) if self._resolver else None
+        if fn is not None:
+            self._fn_depth[id(fn)] = depth + 1  # the callee body is executed right away, to completion, at this depth (no recursion: see resolver)
+            self.inlined_fns[id(fn)] = fn
+        return fn
+
+    def depth_of(self, node) -> int:
+        k = id(node)
+        if k not in self._encl:
+            self._encl[k] = enclosing_func(node) if hasattr(node, "_parent") else None
+        f = self._encl[k]
+        return self._fn_depth.get(id(f), 0) if f is not None else 0
+
+    def v(self, expr, st):
+        return self.value(expr, st, self.depth_of(expr))
+
+    # -- names
+    @staticmethod
+    def _root(name, depth):
+        return name if depth == 0 else f"{depth}:{name}"
+
+    def canon(self, expr, st, depth=None) -> str:
+        if isinstance(expr, ast.Name):
+            if expr.id == "self":
+                return "self"
+            d = self.depth_of(expr) if depth is None else depth
+            v = st.get(f"{d}:{expr.id}")
+            if isinstance(v, tuple) and len(v) == 2 and v[0] in ("r", "param", "sym") and isinstance(v[1], str):
+                return v[1]
+            return self._root(expr.id, d)
+        if isinstance(expr, ast.Attribute):
+            b = self.canon(expr.value, st, depth)
+            return f"{b}.{expr.attr}" if b else ""
+        return ""
+
+    def value(self, expr, st, depth):
+        if self._val is not None and expr is not None:
+            v = self._val(expr, st, self)
+            if v is not None:
+                return v
+        if isinstance(expr, ast.Name):
+            return R("self") if expr.id == "self" else st.get(f"{depth}:{expr.id}")
+        if isinstance(expr, ast.Attribute):
+            c = self.canon(expr, st, depth)
+            if c:
+                return st.get(c) if st.has(c) else R(c)
+        return Spec.value(self, expr, st, depth)
+
+    def bind(self, target, value_expr, st, depth, value=None):
+        if isinstance(target, ast.Name):
+            root = self._root(target.id, depth)
+            if value_expr is None and (value is None or value == UNKNOWN):
+                value = ("sym", root)  # loop variable / with variable / unpacked element: an opaque object with a name
+            stale = [k for k, v in st.env if isinstance(v, tuple) and len(v) == 2 and v[0] == "r" and isinstance(v[1], str) and (v[1] == root or v[1].startswith(root + "."))]
+            if stale:
+                st = st.drop(lambda k: k in stale)
+            st = self.rebound(target.id, depth, st)
+        return ASpec.bind(self, target, value_expr, st, depth, value=value)
+
+    def rebound(self, name, depth, st):
+        return st
+
+    def recv(self, call, st):
+        """(canonical receiver chain, method name) of ``<recv>.<method>(...)``, else ('', '')."""
+        if isinstance(call, ast.Call) and isinstance(call.func, ast.Attribute):
+            return self.canon(call.func.value, st), call.func.attr
+        return "", ""
+
+
+def _module_of(ctx, node, candidates=(H2, H3, I, BASE)):
+    n = node
+    while getattr(n, "_parent", None) is not None:
+        n = n._parent
+    for rel in candidates:
+        if ctx.model.exists(rel) and ctx.model.module(rel).tree is n:
+            return ctx.model.module(rel)
+    return None
+
+
+def _is_log(ctx, call) -> bool:
+    """`Log(...)` of mitmproxy.proxy.commands: a logging command has no effect on streams, ids or queues."""
+    if not isinstance(call, ast.Call) or last_attr(call.func) != "Log":
+        return False
+    m = _module_of(ctx, call)
+    if m is not None:
+        r = ctx.model.resolve_name(m, call.func)
+        if r is not None:
+            return isinstance(r[1], ast.ClassDef) and r[1].name == "Log" and r[0].rel.endswith("proxy/commands.py")
+    return True
+
+
+def _self_helper_resolver(ctx, rel, cls, skip_names=(), skip_nodes=(), only=None, modules=(H2, H3, I, BASE)):
+    """Resolver for the path engine: `self.<m>(...)` -> the method's FunctionDef along the MRO of ``cls`` when it is repository code in
+    ``modules``, is not in ``skip_names`` / ``skip_nodes`` and cannot reach itself again through further `self.` calls (no recursion)."""
+    reach_cache: dict = {}
+
+    def callees(fn):
+        out = set()
+        for n in ast.walk(fn):
+            if isinstance(n, ast.Call) and isinstance(n.func, ast.Attribute) and isinstance(n.func.value, ast.Name) and n.func.value.id == "self" and n.func.attr not in skip_names:
+                out.add(n.func.attr)
+        return out
+
+    def recursive(name):
+        if name not in reach_cache:
+            seen, todo = set(), [name]
+            hit = False
+            while todo:
+                r = ctx.model.method(rel, cls, todo.pop())
+                if r is None:
+                    continue
+                for c in callees(r[1]):
+                    if c == name:
+                        hit = True
+                    if c not in seen:
+                        seen.add(c)
+                        todo.append(c)
+            reach_cache[name] = hit
+        return reach_cache[name]
+
+    def resolver(call):
+        f = call.func
+        if not (isinstance(f, ast.Attribute) and isinstance(f.value, ast.Name) and f.value.id == "self"):
+            return None
+        if f.attr in skip_names or any(call is s for s in skip_nodes):
+            return None
+        r = ctx.model.method(rel, cls, f.attr)
+        if r is None or r[0].rel not in modules or isinstance(r[1], ast.AsyncFunctionDef):
+            return None
+        if only is not None and not only(r[1]):
+            return None
+        if recursive(f.attr):
+            return None
+        return r[1]
+
+    return resolver
+
+
+def _family(ctx, rel, cls, rels):
+    """Names of the classes (in ``rels``) on whose instances `self.<m>` can denote a method of ``cls``: its ancestors and its descendants."""
+    fam = {c.name for _, c in ctx.model.mro(rel, cls)}
+    for r in rels:
+        for q, d in ctx.model.module(r).defs().items():
+            if isinstance(d, ast.ClassDef) and cls in {c.name for _, c in ctx.model.mro(r, q)}:
+                fam.add(d.name)
+    return fam
+
+
+def _callers(ctx, name, rels, family):
+    """(rel, qualname) of every function in ``rels`` that may call / take a reference to the method ``name`` of a class of ``family``:
+    `self.<name>` inside the family, `<other receiver>.<name>` anywhere."""
+    out = set()
+    for rel in rels:
+        for q, d in ctx.model.module(rel).defs().items():
+            if not isinstance(d, (ast.FunctionDef, ast.AsyncFunctionDef)):
+                continue
+            inside = q.split(".")[0] in family
+            for n in ast.walk(d):
+                if isinstance(n, ast.Attribute) and n.attr == name and isinstance(n.ctx, ast.Load):
+                    on_self = isinstance(n.value, ast.Name) and n.value.id == "self"
+                    if inside or not on_self:
+                        out.add((rel, q))
+                        break
+    return out
+
+
+def _private_to(ctx, roots, inlined, rels, family):
+    """Qualnames of the inlined helpers that are reachable ONLY from ``roots`` (closed under the helpers themselves): what they do is
+    exactly what the analysed paths contain."""
+    allowed = set(roots)
+    changed = True
+    while changed:
+        changed = False
+        for fn in inlined:
+            q = getattr(fn, "_qual", fn.name)
+            m = _module_of(ctx, fn, rels)
+            if m is None or (m.rel, q) in allowed:
+                continue
+            if all(c in allowed or c == (m.rel, q) for c in _callers(ctx, fn.name, rels, family)):
+                allowed.add((m.rel, q))
+                changed = True
+    return allowed
+
+
+# ---------------------------------------------------------------------------------------------------
 # R05.1 / R05.2 path part
 
+EVSID = ("evsid",)
+CMDSID = ("cmdsid",)
+FRESH, LOOK, THEIRS = ("ours", "fresh"), ("ours", "lookup"), ("theirs", "lookup")
+TRANSLATED = "their[cmd.event.stream_id]"
 
-def _client_spec(ev, cmdvar, scenario):
-    EVSID = ("evsid",)
 
+def _anchors(ctx, rel, cls):
+    """(_handle_event, name of its event parameter, name of the command variable, the call of the protocol handler the commands come from)."""
+    fn = ctx.func(rel, f"{cls}._handle_event")
+    ev = params_of(fn)[0]
+    single = _single(fn)
+
+    def inner_call(e):
+        e = _through(single, e)
+        if isinstance(e, ast.Call) and len(e.args) == 1 and not e.keywords and isinstance(e.args[0], ast.Name) and e.args[0].id == ev and not is_self_call(e, fn.name):
+            return e
+        return None
+
+    loops = [l for l in walk_in_order(fn) if isinstance(l, ast.For) and inner_call(l.iter) is not None]
+    ctx.require(len(loops) == 1 and isinstance(loops[0].target, ast.Name), f"{cls}._handle_event: expected one `for cmd in <inner handler>(event)` loop")
+    return fn, ev, loops[0].target.id, inner_call(loops[0].iter)
+
+
+def _client_spec(ctx, rel, cls, fn, ev, cmdvar, inner, scenario, leaves=None):
     def val(expr, st, sp):
         if isinstance(expr, ast.Call):
-            if method_call_on(expr, "self.our_stream_id") == "get" and expr.args and sp.v(expr.args[0], st) == EVSID:
-                return ("ours", "lookup")
-            if isinstance(expr.func, ast.Attribute) and expr.func.attr == "get_next_available_stream_id":
-                return ("ours", "fresh")
-            if method_call_on(expr, QUEUE) == "pop":
+            if expr is inner:
+                return ("innercall",)
+            ch, m = sp.recv(expr, st)
+            if ch == MAPS[0] and m == "get" and not expr.keywords and expr.args and (len(expr.args) == 1 or (len(expr.args) == 2 and _is_none(expr.args[1]))) and sp.v(expr.args[0], st) == EVSID:
+                return LOOK
+            if m == "get_next_available_stream_id" and ch in ("self.h2_conn", "self.h3_conn"):
+                return FRESH
+            if ch == QUEUE and m == "pop":
                 return ("popped",)
-        if isinstance(expr, ast.Subscript) and attr_chain(expr.value) == "self.our_stream_id" and sp.v(expr.slice, st) == EVSID:
-            return ("ours", "lookup")
-        if isinstance(expr, ast.Attribute) and attr_chain(expr) == f"{ev}.stream_id":
-            cur = st.get("evsid")
-            return cur if st.has("evsid") else EVSID
+            if isinstance(expr.func, ast.Name) and len(expr.args) == 1 and not expr.keywords:
+                if expr.func.id == "iter" and sp.canon(expr.args[0], st) == QUEUE:
+                    return ("qiter",)
+                if expr.func.id == "next" and sp.v(expr.args[0], st) == ("qiter",):
+                    return ("qfirst",)
+        if isinstance(expr, ast.Subscript) and isinstance(expr.ctx, ast.Load):
+            ch = sp.canon(expr.value, st)
+            if ch == MAPS[0] and sp.v(expr.slice, st) == EVSID:
+                return LOOK
+            if ch == MAPS[1] and sp.v(expr.slice, st) == CMDSID:
+                return THEIRS
+        if isinstance(expr, ast.Attribute) and isinstance(expr.ctx, ast.Load):
+            c = sp.canon(expr, st)
+            if c == f"{ev}.stream_id":
+                return st.get("evsid") if st.has("evsid") else EVSID
+            if c == f"{cmdvar}.event.stream_id":
+                return st.get("cmdsid") if st.has("cmdsid") else CMDSID
         return None
+
+    def shown(v):
+        return v if isinstance(v, tuple) and v and v[0] in ("evsid", "cmdsid", "ours", "theirs") else ("?",)
 
     def label(node, st, sp):
         out = []
         for n in eval_order(node):
             if isinstance(n, ast.Call):
-                m = method_call_on(n, QUEUE)
-                if m == "pop":
-                    a = n.args
-                    first = len(a) == 1 and isinstance(a[0], ast.Call) and isinstance(a[0].func, ast.Name) and a[0].func.id == "next" and len(a[0].args) == 1 \
-                        and isinstance(a[0].args[0], ast.Call) and isinstance(a[0].args[0].func, ast.Name) and a[0].args[0].func.id == "iter" and attr_chain(a[0].args[0].args[0]) == QUEUE
-                    out.append(("q_pop", "first" if first else norm(n)))
-                elif m in ("popitem", "clear"):
+                ch, m = sp.recv(n, st)
+                if ch == QUEUE and m == "pop":
+                    out.append(("q_pop", "first" if len(n.args) == 1 and not n.keywords and sp.v(n.args[0], st) == ("qfirst",) else norm(n)))
+                elif ch == QUEUE and m in ("popitem", "clear"):
                     out.append(("q_pop", m))
-                elif isinstance(n.func, ast.Attribute) and n.func.attr == "append" and isinstance(n.func.value, ast.Subscript) and attr_chain(n.func.value.value) == QUEUE:
-                    out.append(("q_append", sp.v(n.func.value.slice, st), norm(n.args[0]) if len(n.args) == 1 else "?"))
-                elif any(method_call_on(n, mp) in ("pop", "clear", "update", "setdefault", "popitem") for mp in MAPS):
+                elif m == "append" and isinstance(n.func.value, ast.Subscript) and sp.canon(n.func.value.value, st) == QUEUE:
+                    out.append(("q_append", shown(sp.v(n.func.value.slice, st)), (sp.canon(n.args[0], st) or norm(n.args[0])) if len(n.args) == 1 else "?"))
+                elif ch == QUEUE and m in ("setdefault", "update", "__setitem__"):
+                    out.append(("q_append", ("?",), norm(n)))
+                elif ch in MAPS and m in ("pop", "clear", "update", "setdefault", "popitem", "__setitem__", "__delitem__"):
                     out.append(("map_other", norm(n)))
-                elif is_self_call(n, "_handle_event") and isinstance(getattr(n, "_parent", None), ast.YieldFrom):
+                elif is_self_call(n, fn.name) and isinstance(getattr(n, "_parent", None), ast.YieldFrom):
                     a0 = n.args[0] if n.args else None
                     p = n
                     while p is not None and not isinstance(p, (ast.For, ast.FunctionDef)):
                         p = getattr(p, "_parent", None)
-                    ok = isinstance(p, ast.For) and isinstance(a0, ast.Name) and isinstance(p.target, ast.Name) and p.target.id == a0.id and sp.v(p.iter, st) == ("popped",)
+                    ok = isinstance(p, ast.For) and isinstance(a0, ast.Name) and isinstance(p.target, ast.Name) and p.target.id == a0.id and len(n.args) == 1 and sp.v(p.iter, st) == ("popped",)
                     out.append(("replay", "loopvar" if ok else norm(n)))
             elif isinstance(n, ast.Yield):
-                if isinstance(n.value, ast.Name) and n.value.id == cmdvar:
+                if n.value is not None and sp.canon(n.value, st) == cmdvar:
                     out.append(("yield", "cmd"))
-                else:
+                elif not _is_log(ctx, n.value):
                     out.append(("yield", norm(n.value) if n.value is not None else ""))
-        if isinstance(node, ast.Assign):
-            for t in node.targets:
-                if isinstance(t, ast.Subscript) and attr_chain(t.value) in MAPS:
-                    out.append(("map_our" if attr_chain(t.value) == MAPS[0] else "map_their", sp.v(t.slice, st), sp.v(node.value, st)))
-                elif attr_chain(t) == f"{ev}.stream_id":
-                    out.append(("rewrite_in", sp.v(node.value, st)))
-                elif attr_chain(t) == f"{cmdvar}.event.stream_id":
-                    v = node.value
-                    ok = isinstance(v, ast.Subscript) and attr_chain(v.value) == MAPS[1] and attr_chain(v.slice) == f"{cmdvar}.event.stream_id"
-                    out.append(("rewrite_out", "their[cmd.event.stream_id]" if ok else norm(v)))
-                elif attr_chain(t) in MAPS:
+        targets = node.targets if isinstance(node, ast.Assign) else [node.target] if isinstance(node, (ast.AugAssign, ast.AnnAssign)) and getattr(node, "value", None) is not None else []
+        plain = isinstance(node, (ast.Assign, ast.AnnAssign))
+        for t in targets:
+            if isinstance(t, ast.Subscript):
+                ch = sp.canon(t.value, st)
+                if ch in MAPS and plain:
+                    out.append(("map_our" if ch == MAPS[0] else "map_their", shown(sp.v(t.slice, st)), shown(sp.v(node.value, st))))
+                elif ch in MAPS:
                     out.append(("map_other", norm(node)))
-        elif isinstance(node, ast.Delete):
-            for t in node.targets:
-                if any(mp in ast.unparse(t) for mp in MAPS):
+                elif ch == QUEUE:
+                    out.append(("q_append", ("?",), norm(node)))
+            elif isinstance(t, ast.Attribute):
+                c = sp.canon(t, st)
+                if c == f"{ev}.stream_id":
+                    out.append(("rewrite_in", shown(sp.v(node.value, st)) if plain else ("?",)))
+                elif c == f"{cmdvar}.event.stream_id":
+                    out.append(("rewrite_out", TRANSLATED if plain and sp.v(node.value, st) == THEIRS else norm(node.value)))
+                elif c in MAPS or c == QUEUE:
                     out.append(("map_other", norm(node)))
+        if isinstance(node, ast.Delete):
+            for t in node.targets:
+                ch = sp.canon(t.value if isinstance(t, ast.Subscript) else t, st)
+                if ch in MAPS:
+                    out.append(("map_other", norm(node)))
+                elif ch == QUEUE:
+                    out.append(("q_pop", norm(node)))
         return out
 
-    class CS(ASpec):
+    def atom(expr, st, sp):
+        io = _isinst(expr)
+        if io:
+            c = sp.canon(io[0], st)
+            if c == ev and io[1] == ["HttpEvent"]:
+                return ("H", True)
+            if c == cmdvar and io[1] == ["ReceiveHttp"]:
+                return ("RH", True)
+        cp = compare_pair(expr, (ast.Is, ast.IsNot, ast.Eq, ast.NotEq))
+        if cp and _is_none(cp[1]) and sp.v(cp[0], st) == LOOK:
+            return ("NEW", isinstance(cp[2], (ast.Is, ast.Eq)))
+        cp = compare_pair(expr, (ast.In, ast.NotIn))
+        if cp and sp.canon(cp[1], st) == MAPS[0] and sp.v(cp[0], st) == EVSID:
+            return ("NEW", isinstance(cp[2], ast.NotIn))
+        return None
+
+    def raises(stmt, st, sp):
+        # `try: ours = self.our_stream_id[event.stream_id]` / `except KeyError:` is the same test as `.get()` + `is None`
+        if isinstance(stmt, (ast.Assign, ast.AnnAssign, ast.Expr)):
+            for n in ast.walk(stmt):
+                if isinstance(n, ast.Subscript) and isinstance(n.ctx, ast.Load) and sp.canon(n.value, st) == MAPS[0] and sp.v(n.slice, st) == EVSID:
+                    return ["KeyError"]
+        return []
+
+    class CS(DSpec):
         def effect(self, stmt, st, depth):
-            st = ASpec.effect(self, stmt, st, depth)
-            if isinstance(stmt, ast.Assign):
-                for t in stmt.targets:
-                    if attr_chain(t) == f"{ev}.stream_id":
-                        st = st.set("evsid", self.v(stmt.value, st))
+            hit = {}
+            if isinstance(stmt, (ast.Assign, ast.AnnAssign)) and getattr(stmt, "value", None) is not None:
+                for t in stmt.targets if isinstance(stmt, ast.Assign) else [stmt.target]:
+                    if isinstance(t, ast.Attribute):
+                        c = self.canon(t, st, depth)
+                        if c == f"{ev}.stream_id":
+                            hit["evsid"] = self.value(stmt.value, st, depth)
+                        elif c == f"{cmdvar}.event.stream_id":
+                            hit["cmdsid"] = self.value(stmt.value, st, depth)
+            st = DSpec.effect(self, stmt, st, depth)
+            for k, v in hit.items():
+                st = st.set(k, v)
+            return st
+
+        def rebound(self, name, depth, st):
+            # another event / another command: what was known about the previous one's id no longer applies
+            if depth == 0 and name == ev and st.has("evsid"):
+                st = st.drop(lambda k: k == "evsid")
+            if depth == 0 and name == cmdvar and st.has("cmdsid"):
+                st = st.drop(lambda k: k == "cmdsid")
             return st
 
         def loop_event(self, node, entered, st):
-            it = node.iter
-            if isinstance(it, ast.Call) and len(it.args) == 1 and isinstance(it.args[0], ast.Name) and it.args[0].id == ev and isinstance(node.target, ast.Name) and node.target.id == cmdvar:
-                return ("inner", norm(it.func), entered)
-            if self.v(it, st) == ("popped",):
+            if isinstance(node.target, ast.Name) and node.target.id == cmdvar and self.depth_of(node) == 0 and self.v(node.iter, st) == ("innercall",):
+                return ("inner", norm(inner.func), entered)
+            if self.v(node.iter, st) == ("popped",):
                 return ("qloop", entered)
             return None
 
-    def atom(expr, st, sp):
-        io = isinstance_of(expr)
-        if io and isinstance(io[0], ast.Name):
-            if io[0].id == ev and io[1] == ["HttpEvent"]:
-                return ("H", True)
-            if io[0].id == cmdvar and io[1] == ["ReceiveHttp"]:
-                return ("RH", True)
-        cp = compare_pair(expr, (ast.Is, ast.IsNot))
-        if cp and isinstance(cp[1], ast.Constant) and cp[1].value is None and sp.v(cp[0], st) == ("ours", "lookup"):
-            return ("NEW", isinstance(cp[2], ast.Is))
-        return None
+        def handler_event(self, h, ename, st):
+            return ("cond", "NEW", True) if ename == "KeyError" else ("caught", ename)
 
-    return CS(label=label, atom=atom, scenario=scenario, val=val, unroll=2)
+        def cond_event(self, expr, value, st):
+            a = atom(expr, st, self)
+            if a is not None:
+                return ("cond", a[0], value if a[1] else (not value))
+            if leaves is not None:
+                key = f"{getattr(expr, 'lineno', 0)}:{getattr(expr, 'col_offset', 0)}:{norm(expr)[:90]}"
+                leaves[key] = expr
+                return ("cond?", key, value)
+            return None
+
+    resolver = _self_helper_resolver(ctx, rel, cls, skip_names=(fn.name,), skip_nodes=(inner,))
+    return CS(label=label, atom=atom, scenario=scenario, val=val, raises=raises, resolver=resolver, unroll=2, max_depth=3)
 
 
 def _client(ctx, rel, cls, gated):
-    fn = ctx.func(rel, f"{cls}._handle_event")
-    ev = params_of(fn)[0]
+    fn, ev, cmdvar, inner = _anchors(ctx, rel, cls)
     w = (rel, f"{cls}._handle_event", fn)
-    loops = [l for l in walk_in_order(fn) if isinstance(l, ast.For) and isinstance(l.iter, ast.Call) and len(l.iter.args) == 1 and isinstance(l.iter.args[0], ast.Name) and l.iter.args[0].id == ev]
-    ctx.require(len(loops) == 1 and isinstance(loops[0].target, ast.Name), f"{cls}._handle_event: expected one `for cmd in <inner handler>(event)` loop")
-    cmdvar = loops[0].target.id
-    EVSID = ("evsid",)
-    FRESH, LOOK = ("ours", "fresh"), ("ours", "lookup")
 
-    # who-may-write
+    results = []
+    inlined = {}
+    for H in (True, False):
+        sp = _client_spec(ctx, rel, cls, fn, ev, cmdvar, inner, {"H": H})
+        traces, _ = run_block(fn.body, sp, {ev: ("param", ev)})
+        inlined.update(sp.inlined_fns)
+        results.append((H, traces))
+
+    # who-may-write: the analysed paths (the function itself and the private helpers inlined into it) are the only writers
     writers = set()
     for m in (ctx.model.module(H2), ctx.model.module(H3)):
         for q, d in m.defs().items():
             if isinstance(d, ast.FunctionDef):
                 for n in ast.walk(d):
                     hit = False
-                    if isinstance(n, (ast.Assign, ast.AugAssign, ast.Delete)):
-                        tg = n.targets if not isinstance(n, ast.AugAssign) else [n.target]
-                        hit = any(isinstance(t, ast.Subscript) and attr_chain(t.value) in MAPS for t in tg)
-                    elif isinstance(n, ast.Call):
-                        hit = any(method_call_on(n, mp) in ("pop", "clear", "update", "setdefault", "popitem", "__setitem__", "__delitem__") for mp in MAPS)
+                    if isinstance(n, (ast.Assign, ast.AugAssign, ast.AnnAssign, ast.Delete)):
+                        tg = n.targets if isinstance(n, (ast.Assign, ast.Delete)) else [n.target]
+                        hit = any((isinstance(t, ast.Subscript) and attr_chain(t.value) in MAPS) for t in tg)
+                    elif isinstance(n, ast.Call) and isinstance(n.func, ast.Attribute):
+                        hit = attr_chain(n.func.value) in MAPS and n.func.attr in ("pop", "clear", "update", "setdefault", "popitem", "__setitem__", "__delitem__")
                     if hit:
                         writers.add((m.rel, q))
-    mine = {(rel, f"{cls}._handle_event")}
-    others = {x for x in writers if x[1].split(".")[0] == cls} - mine
+    mine = _private_to(ctx, {(rel, f"{cls}._handle_event")}, list(inlined.values()), (H2, H3), _family(ctx, rel, cls, (H2, H3)))
+    mro_names = {c.name for _, c in ctx.model.mro(rel, cls)}
+    others = {x for x in writers if x[1].split(".")[0] in mro_names} - mine
     ctx.check(not others, "R05.1", w, f"{cls}: writers of our_stream_id/their_stream_id", f"the stream-id maps are also written in {sorted(others)} - the converse-pair invariant is no longer established at one place",
-              desc=f"{cls}: stream-id maps written only in _handle_event")
+              desc=f"{cls}: stream-id maps written only in _handle_event" + (f" (and its private helpers {sorted(q for _, q in mine if not q.endswith('._handle_event'))})" if len(mine) > 1 else ""))
 
-    for H in (True, False):
-        sp = _client_spec(ev, cmdvar, {"H": H})
-        traces, _ = run_block(fn.body, sp, {ev: ("param", ev)})
+    for H, traces in results:
         ctx.paths += len(traces)
         ctx.require(traces, f"{cls}._handle_event: no path")
         prob = {}
@@ -216,7 +591,7 @@ def _client(ctx, rel, cls, gated):
             if any(t[0] == "map_other" for t in eff):
                 prob.setdefault("map writes", ("the stream-id maps are modified other than by the converse pair of item assignments", eff))
                 continue
-            inner = [i for i, t in enumerate(eff) if t[0] == "inner"]
+            inner_at = [i for i, t in enumerate(eff) if t[0] == "inner"]
             if any(t[0] == "q_append" for t in eff):
                 n_gated += 1
                 if not gated:
@@ -225,10 +600,10 @@ def _client(ctx, rel, cls, gated):
                     prob.setdefault("gate", ("a gated event must be appended to stream_queue[its original stream id] and nothing else may happen "
                                              "(no id allocation, no rewrite, no send)", eff))
                 continue
-            if not inner:
+            if not inner_at:
                 prob.setdefault("dispatch", ("the event never reaches the protocol handler", eff))
                 continue
-            pre = eff[: inner[0]]
+            pre = eff[: inner_at[0]]
             if H:
                 new = ("cond", "NEW", True) in toks
                 ri = [t for t in pre if t[0] == "rewrite_in"]
@@ -248,7 +623,7 @@ def _client(ctx, rel, cls, gated):
             elif any(t[0] in ("rewrite_in", "map_our", "map_their") for t in pre):
                 prob.setdefault("rewrite in", ("a non-HTTP event gets its ids rewritten", eff))
             # outbound: per inner-loop iteration
-            for a, b in zip(inner, inner[1:] + [len(eff)]):
+            for a, b in zip(inner_at, inner_at[1:] + [len(eff)]):
                 if not eff[a][2]:
                     continue
                 seg = eff[a + 1 : b]
@@ -256,14 +631,12 @@ def _client(ctx, rel, cls, gated):
                 seg = seg[:end]
                 conds = [t for t in toks[toks.index(eff[a]) :] if t[0] == "cond" and t[1] == "RH"]
                 ys = [t for t in seg if t[0] == "yield"]
-                ro = [t for t in seg if t[0] == "rewrite_out"]
                 n_out += 1
                 if ys != [("yield", "cmd")]:
                     prob.setdefault("yield once", (f"a command of the protocol handler is not yielded exactly once (saw {ys})", eff))
                 elif not conds:
                     prob.setdefault("rewrite out", ("commands are forwarded without checking for ReceiveHttp", eff))
             # rewrite_out consistency over the whole trace (RH True -> translated before the yield, RH False -> untouched)
-            cur = None
             last_rh = None
             pending = False
             for t in toks:
@@ -272,9 +645,9 @@ def _client(ctx, rel, cls, gated):
                 elif t[0] == "cond" and t[1] == "RH":
                     last_rh = t[2]
                 elif t[0] == "rewrite_out":
-                    pending = t[1] == "their[cmd.event.stream_id]"
-                    if not pending or last_rh is not True:
+                    if pending or t[1] != TRANSLATED or last_rh is not True:
                         prob.setdefault("rewrite out", (f"ids of commands going back are rewritten wrongly ({t[1]})", eff))
+                    pending = t[1] == TRANSLATED
                 elif t == ("yield", "cmd"):
                     if last_rh is True and not pending:
                         prob.setdefault("rewrite out", ("a ReceiveHttp is passed up with the upstream stream id instead of the client's (their_stream_id lookup missing before the yield) "
@@ -309,49 +682,7 @@ def _client(ctx, rel, cls, gated):
 
 
 # ---------------------------------------------------------------------------------------------------
-# R05.2 expression tables
-
-
-def _interp(expr, env, locs):
-    """Interpret a side-effect-free expression over concrete values (Python semantics for and/or/not/compare)."""
-    if isinstance(expr, ast.Constant):
-        return expr.value
-    if isinstance(expr, ast.Name):
-        if expr.id in locs:
-            return _interp(locs[expr.id], env, locs)
-        raise AnalysisError(f"gate expression uses unknown name {expr.id}")
-    ch = attr_chain(expr)
-    if ch:
-        if ch not in env:
-            raise AnalysisError(f"gate expression reads {ch}, which the value table does not model")
-        return env[ch]
-    if isinstance(expr, ast.BoolOp):
-        v = None
-        for e in expr.values:
-            v = _interp(e, env, locs)
-            if isinstance(expr.op, ast.And) and not v:
-                return v
-            if isinstance(expr.op, ast.Or) and v:
-                return v
-        return v
-    if isinstance(expr, ast.UnaryOp) and isinstance(expr.op, ast.Not):
-        return not _interp(expr.operand, env, locs)
-    if isinstance(expr, ast.Call) and isinstance(expr.func, ast.Name) and expr.func.id in ("len", "bool") and len(expr.args) == 1:
-        v = _interp(expr.args[0], env, locs)
-        return len(v) if expr.func.id == "len" else bool(v)
-    if isinstance(expr, ast.Compare):
-        l = _interp(expr.left, env, locs)
-        for op, c in zip(expr.ops, expr.comparators):
-            r = _interp(c, env, locs)
-            res = {ast.Lt: lambda: l < r, ast.LtE: lambda: l <= r, ast.Gt: lambda: l > r, ast.GtE: lambda: l >= r, ast.Eq: lambda: l == r,
-                   ast.NotEq: lambda: l != r, ast.Is: lambda: l is r, ast.IsNot: lambda: l is not r}.get(type(op))
-            if res is None:
-                raise AnalysisError(f"gate expression uses unmodelled operator in {norm(expr)}")
-            if not res():
-                return False
-            l = r
-        return True
-    raise AnalysisError(f"gate expression not interpretable: {norm(expr)}")
+# R05.2 decision tables
 
 
 BASE_ENV = (OPEN, PROV, REMOTE, QUEUE)
@@ -359,25 +690,10 @@ REMOVERS = ("pop", "popitem", "clear", "remove", "discard")
 LOCAL_CLOSERS = ("reset_stream", "end_stream")
 
 
-def _self_reads(expr, locs, seen=None):
-    """`self.`-rooted attribute chains read by a gate expression (locals resolved through their single assignment)."""
-    out = []
-    seen = set() if seen is None else seen
-    for n in ast.walk(expr):
-        if isinstance(n, ast.Name) and n.id in locs and n.id not in seen:
-            seen.add(n.id)
-            out += _self_reads(locs[n.id], locs, seen)
-        elif isinstance(n, ast.Attribute) and not isinstance(getattr(n, "_parent", None), ast.Attribute):
-            ch = attr_chain(n)
-            if ch.startswith("self."):
-                out.append(ch)
-    return out
-
-
 def _removes(fn, chain):
     """Does ``fn`` ever take something OUT of ``chain`` (pop/del/clear/remove, re-assignment, -=)?"""
     for n in ast.walk(fn):
-        if isinstance(n, ast.Call) and method_call_on(n, chain) in REMOVERS:
+        if isinstance(n, ast.Call) and isinstance(n.func, ast.Attribute) and attr_chain(n.func.value) == chain and n.func.attr in REMOVERS:
             return True
         if isinstance(n, ast.Delete) and any(attr_chain(t.value if isinstance(t, ast.Subscript) else t) == chain for t in n.targets):
             return True
@@ -423,49 +739,158 @@ def _decoupled_from_h2(ctx, chain):
     return None
 
 
+class _Missing(AnalysisError):
+    def __init__(self, attr):
+        AnalysisError.__init__(self, f"self.{attr} is not a quantity of the value table")
+        self.attr = attr
+
+
+class _GateInterp(Interp):
+    """pyint over the abstract Http2Client of one table row; reading an attribute of the client the row does not define is reported as such."""
+
+    selfrec = None
+
+    def getattr(self, base, attr, node, depth):
+        if base is self.selfrec and attr not in base.__dict__ and self.find_property(base, attr) is None and self.model.method(base._impl[0], base._impl[1], attr) is None:
+            raise _Missing(attr)
+        return Interp.getattr(self, base, attr, node, depth)
+
+
+def _abstract_client(row):
+    """The Http2Client of one table row: exactly the quantities the capacity decision may depend on."""
+    return Rec(
+        "Http2Client",
+        _impl=(H2, "Http2Client"),
+        h2_conn=Rec("H2Connection", open_outbound_streams=row[OPEN], remote_settings=Rec("Settings", max_concurrent_streams=row[REMOTE])),
+        provisional_max_concurrency=row[PROV],
+        stream_queue={k: list(v) for k, v in row[QUEUE].items()},
+        **{ch.split(".", 1)[1]: dict(v) for ch, v in row.items() if ch not in BASE_ENV},
+    )
+
+
+def _eval_leaf(ctx, expr, row, singles):
+    """Truth of one branch condition of Http2Client._handle_event (or of a helper inlined into it) on one table row:
+    True / False, or ('free', attr|None, why) when it reads something the table does not define."""
+    f = enclosing_func(expr) if hasattr(expr, "_parent") else None
+    if f is None:
+        return ("free", None, "synthesised condition")
+    mod = _module_of(ctx, f)
+    if mod is None:
+        return ("free", None, "helper outside the analysed modules")
+    if id(f) not in singles:
+        singles[id(f)] = (_single(f), _bindings(f))
+    single, allb = singles[id(f)]
+    interp = _GateInterp(ctx.model, max_steps=20000)
+    me = _abstract_client(row)
+    interp.selfrec = me
+    env = {"self": me}
+
+    def bind(e, stack):
+        for n in ast.walk(e):
+            if isinstance(n, ast.Name) and n.id not in env and n.id in allb:
+                if n.id not in single:
+                    raise AnalysisError(f"`{n.id}` is not a single-assignment temporary")
+                if n.id in stack:
+                    raise AnalysisError(f"`{n.id}` is defined through itself")
+                bind(single[n.id], stack | {n.id})
+                env[n.id] = interp.ev(single[n.id], env, mod, 0)
+
+    try:
+        bind(expr, frozenset())
+        return bool(interp.truthy(interp.ev(expr, env, mod, 0)))
+    except _Missing as e:
+        return ("free", e.attr, str(e))
+    except AnalysisError as e:
+        return ("free", None, str(e))
+    except Raised as e:
+        return ("free", None, f"raises {e.name}")
+    except RecursionError:
+        return ("free", None, "recursion")
+
+
 def _gate_tables(ctx):
-    fn = ctx.func(H2, "Http2Client._handle_event")
+    fn, ev, cmdvar, inner = _anchors(ctx, H2, "Http2Client")
     w = (H2, "Http2Client._handle_event", fn)
-    locs = {}
-    for n in ast.walk(fn):
-        if isinstance(n, ast.Assign) and len(n.targets) == 1 and isinstance(n.targets[0], ast.Name):
-            locs.setdefault(n.targets[0].id, n.value)
 
-    def guard_of(pred, what):
-        hits = [n for n in walk_in_order(fn) if isinstance(n, ast.Call) and pred(n)]
-        ctx.require(len(hits) == 1, f"Http2Client._handle_event: expected exactly one {what}")
-        p = hits[0]
-        while p is not None and not isinstance(p, (ast.If, ast.FunctionDef)):
-            p = getattr(p, "_parent", None)
-        ctx.require(isinstance(p, ast.If) and not any(hits[0] in list(ast.walk(s)) for s in p.orelse), f"Http2Client._handle_event: the {what} is not guarded by an if")
-        return p.test
+    # the paths of _handle_event with every branch condition they took: (is a new stream, conditions, queued, resumed)
+    leaves: dict = {}
+    paths = set()
+    for H in (True, False):
+        sp = _client_spec(ctx, H2, "Http2Client", fn, ev, cmdvar, inner, {"H": H}, leaves=leaves)
+        traces, _ = run_block(fn.body, sp, {ev: ("param", ev)})
+        ctx.paths += len(traces)
+        for tr, how, _ in traces:
+            if how != "return":
+                continue
+            conds = tuple(dict.fromkeys((t[1], t[2]) for t in tr if t[0] == "cond?"))
+            paths.add((H and ("cond", "NEW", True) in tr, conds, any(t[0] == "q_append" for t in tr), any(t[0] == "q_pop" for t in tr)))
+    ctx.require(any(p[2] for p in paths), "Http2Client._handle_event: no path appends to stream_queue (anchor changed)")
+    ctx.require(any(p[3] for p in paths), "Http2Client._handle_event: no path takes a stream out of stream_queue (anchor changed)")
 
-    gate = guard_of(lambda n: isinstance(n.func, ast.Attribute) and n.func.attr == "append" and isinstance(n.func.value, ast.Subscript) and attr_chain(n.func.value.value) == QUEUE, "stream_queue[...].append")
-    resume = guard_of(lambda n: method_call_on(n, QUEUE) in ("pop", "popitem"), "stream_queue pop")
-    # quantities the two expressions read besides the modelled four: mitmproxy's own bookkeeping.  Such an attribute is only an acceptable
-    # measure of "streams open upstream" if it is kept equal to hyper-h2's count; when the class provably does not do that (a stream closed
-    # locally stays in it) the attribute is an independent variable of the table and is sampled independently of open_outbound_streams.
-    extras = {}
-    for ch in dict.fromkeys(_self_reads(gate, locs) + _self_reads(resume, locs)):
-        if ch in BASE_ENV or any(b.startswith(ch + ".") for b in BASE_ENV):
+    singles: dict = {}
+    extras: dict = {}
+    while True:
+        memo: dict = {}
+        bad_g = bad_r = None
+        need: dict = {}
+        stuck = None
+        xs = [dict(zip(extras, combo)) for combo in itertools.product(*[[{i: "s" for i in range(k)} for k in (0, 1, 2, 3, 4)] for _ in extras])]
+        n_rows = 0
+        for o, p, r, q, x in itertools.product((0, 1, 2, 3, 4), (None, 2), (1, 3), ({}, {7: ["e"]}), xs):
+            row = {OPEN: o, PROV: p, REMOTE: r, QUEUE: q, **x}
+            rk = (o, p, r, bool(q), tuple(len(v) for v in x.values()))
+            limit = p if p else r
+            n_rows += 1
+            ctx.cells += 2
+            seen = {False: 0, True: 0}
+            for new, conds, queued, resumed in paths:
+                free = []
+                ok = True
+                for key, val in conds:
+                    if (key, rk) not in memo:
+                        memo[(key, rk)] = _eval_leaf(ctx, leaves[key], row, singles)
+                    got = memo[(key, rk)]
+                    if isinstance(got, tuple):
+                        free.append((key, got))
+                    elif got != val:
+                        ok = False
+                        break
+                if not ok:
+                    continue  # this path is not taken with these values
+                seen[new] += 1
+                want_q = new and o >= limit
+                want_r = (not queued) and bool(q) and o < limit
+                wrong = ("gate", queued) if queued != want_q else ("resume", resumed) if (not queued and resumed != want_r) else None
+                if wrong is None:
+                    continue
+                if free:
+                    attrs = [g[1] for _, g in free if g[1] is not None and "self." + g[1] not in extras]
+                    if attrs:
+                        for a in attrs:
+                            need.setdefault(a, wrong[0])
+                    elif stuck is None:
+                        stuck = (wrong[0], free[0][0].split(":", 2)[2], free[0][1][2])
+                    continue
+                if wrong[0] == "gate" and bad_g is None:
+                    bad_g = (row, queued)
+                if wrong[0] == "resume" and bad_r is None:
+                    bad_r = (row, resumed)
+            ctx.require(seen[True] and seen[False], f"Http2Client._handle_event: no path is consistent with the table row open={o} provisional={p} remote_max={r} queued={len(q)}")
+        if need:
+            # quantities the deciding conditions read besides the modelled four: mitmproxy's own bookkeeping.  Such an attribute is only an
+            # acceptable measure of "streams open upstream" if it is kept equal to hyper-h2's count; when the class provably does not do that
+            # (a stream closed locally stays in it) the attribute is an independent variable of the table, sampled independently of
+            # open_outbound_streams.
+            for a in need:
+                ch = "self." + a
+                wit = _decoupled_from_h2(ctx, ch)
+                ctx.require(wit is not None, f"the {need[a]} decision reads {ch}; it is removed from wherever a stream is closed locally, so it may or may not track open_outbound_streams (coupling not modelled)")
+                extras[ch] = wit
+                ctx.note(f"{ch} is not an upstream-open count: {wit[0]} closes a stream in hyper-h2 ({norm(wit[1])[:60]}) and nothing on its call chain removes from {ch}")
             continue
-        ctx.require(ch.count(".") == 1, f"gate expression reads {ch}, which the value table does not model")
-        wit = _decoupled_from_h2(ctx, ch)
-        ctx.require(wit is not None, f"gate expression reads {ch}; it is removed from wherever a stream is closed locally, so it may or may not track open_outbound_streams (coupling not modelled)")
-        extras[ch] = wit
-        ctx.note(f"{ch} is not an upstream-open count: {wit[0]} closes a stream in hyper-h2 ({norm(wit[1])[:60]}) and nothing on its call chain removes from {ch}")
-    bad_g = bad_r = None
-    xs = [dict(zip(extras, combo)) for combo in itertools.product(*[[{i: "s" for i in range(k)} for k in (0, 1, 2, 3, 4)] for _ in extras])]
-    for o, p, r, q, x in itertools.product((0, 1, 2, 3, 4), (None, 2), (1, 3), ({}, {7: ["e"]}), xs):
-        env = {OPEN: o, PROV: p, REMOTE: r, QUEUE: q, **x}
-        limit = p if p else r
-        ctx.cells += 2
-        g = bool(_interp(gate, env, locs))
-        if g != (o >= limit) and bad_g is None:
-            bad_g = (env, g)
-        rs = bool(_interp(resume, env, locs))
-        if rs != (bool(q) and o < limit) and bad_r is None:
-            bad_r = (env, rs)
+        if stuck is not None and bad_g is None and bad_r is None:
+            raise AnalysisError(f"Http2Client._handle_event: the {stuck[0]} decision depends on `{stuck[1]}`, which cannot be evaluated on the value table ({stuck[2]})")
+        break
 
     def fmt(b):
         e = b[0]
@@ -473,9 +898,9 @@ def _gate_tables(ctx):
         return f"open={e[OPEN]} provisional={e[PROV]} remote_max={e[REMOTE]} queued={len(e[QUEUE])}{own} -> {b[1]}"
 
     ctx.check(bad_g is None, "R05.2", w, "capacity gate expression", "a new upstream stream is opened although open_outbound_streams has reached (provisional or remote) max_concurrent_streams, or is "
-              f"held back although there is capacity: {fmt(bad_g) if bad_g else ''}", desc="gate == open_outbound_streams >= (provisional or remote max) on 40 value rows")
+              f"held back although there is capacity: {fmt(bad_g) if bad_g else ''}", desc=f"queued == new stream and open_outbound_streams >= (provisional or remote max) on {n_rows} value rows x {len(paths)} paths")
     ctx.check(bad_r is None, "R05.2", w, "resume expression", f"queued streams are resumed without capacity / not resumed although there is capacity: {fmt(bad_r) if bad_r else ''}",
-              desc="resume == queue and open_outbound_streams < (provisional or remote max) on 40 value rows")
+              desc=f"resumed == queue and open_outbound_streams < (provisional or remote max) on {n_rows} value rows x {len(paths)} paths")
 
     # provisional_max_concurrency writers
     n_w = 0
@@ -493,7 +918,7 @@ def _gate_tables(ctx):
             return []
 
         def atom(expr, st, sp):
-            io = isinstance_of(expr)
+            io = _isinst(expr)
             if io and isinstance(io[0], ast.Name) and io[0].id == evp and io[1] == ["RemoteSettingsChanged"]:
                 return ("RSC", True)
             return None
